@@ -1,6 +1,7 @@
 package harness
 
 import (
+	"bytes"
 	"crypto/sha256"
 	"encoding/binary"
 	"encoding/json"
@@ -56,6 +57,9 @@ type Result struct {
 }
 
 type Ctx struct {
+	// oddNames: the directories of the current case get names holding glob metacharacters, a backslash, a blank and a
+	// per cent sign (set from the case by the arm, so that a replay uses the same kind of name)
+	oddNames bool
 	T         *testing.T
 	Property  string
 	Harness   string
@@ -493,6 +497,9 @@ func sigClass(sig string) string {
 func pick[T any](r *rand.Rand, xs ...T) T { return xs[r.Intn(len(xs))] }
 
 func freshDir(c *Ctx, name string) string {
+	if c.oddNames {
+		name += " [a-c]\\q?%#*-*"
+	}
 	d, err := os.MkdirTemp(c.Scratch, name)
 	if err != nil {
 		panic(err)
@@ -657,4 +664,24 @@ func safely(f func()) (panicked bool) {
 	}()
 	f()
 	return false
+}
+
+// oddCmp orders byte strings exactly as bytes.Compare does but answers with other magnitudes: the Comparator contract
+// (< 0, == 0, > 0) fixes the sign only. Kind 0 is the plain byte comparator, 1 multiplies by seven, 2 answers with the
+// difference of the first differing bytes (or of the lengths).
+type oddCmp struct{ kind int }
+
+func (o oddCmp) Compare(a, b []byte) int {
+	switch o.kind {
+	case 1:
+		return 7 * bytes.Compare(a, b)
+	case 2:
+		for i := 0; i < len(a) && i < len(b); i++ {
+			if a[i] != b[i] {
+				return int(a[i]) - int(b[i])
+			}
+		}
+		return len(a) - len(b)
+	}
+	return bytes.Compare(a, b)
 }
